@@ -11,6 +11,10 @@ RR = ['r00', 'r01', 'r02', 'r10', 'r11', 'r12', 'r20', 'r21', 'r22']
 CLOSED = ('chiaverini', 'hughes', 'sarabandi')          # the closed-form trio: property only up to pi - 1e-6
 CHOICES = [('shepperd', {}), ('chiaverini', {}), ('hughes', {}), ('sarabandi', {}),
            ('itzhack', {'version': 1}), ('itzhack', {'version': 2}), ('itzhack', {'version': 3})]
+# the methods' options: Sarabandi's threshold (docstring: floats in (-3, 3); the code is exact for every value below 3 —
+# theorem C02_closed_form_trio_inverts — and divides 0/0 at the identity from 3.0 on), Bar-Itzhack's version
+SARA_THRESHOLDS = (-2.0, -0.5, 0.0, 0.25, 0.5, 0.9, 1.0, 2.5)
+OPT_CHOICES = [('sarabandi', {'threshold': t}) for t in SARA_THRESHOLDS]
 ENTRIES = ('DCM.to_quaternion', 'Quaternion(dcm=)', 'QuaternionArray(DCM=)')
 
 LEVEL_TEXT = ("Coq theorems over the regenerated shepperd / chiaverini / hughes / sarabandi (single and batch branches): for every unit "
@@ -69,6 +73,13 @@ def targets():
         ts.append(mk(f'Q_{m}_m', RR, lambda A, v, m=m: A.Quaternion(dcm=_Rm(v), method=m), f"Quaternion(dcm=R, method='{m}')"))
         ts.append(mk(f'QA_{m}_m', RR, lambda A, v, m=m: A.QuaternionArray(DCM=symnp.array([_Rm(v)]), method=m)[0],
                      f"QuaternionArray(DCM=[R], method='{m}')[0]"))
+    E = RR + ['eta']
+    ts.append(mk('DCM_sarabandi_thr_m', E, lambda A, v: A.DCM(_Rm(v)).to_quaternion(method='sarabandi', threshold=v.eta),
+                 "DCM(R).to_quaternion('sarabandi', threshold=eta)"))
+    ts.append(mk('Q_sarabandi_thr_m', E, lambda A, v: A.Quaternion(dcm=_Rm(v), method='sarabandi', threshold=v.eta),
+                 "Quaternion(dcm=R, method='sarabandi', threshold=eta)"))
+    ts.append(mk('QA_sarabandi_thr_m', E, lambda A, v: A.QuaternionArray(DCM=symnp.array([_Rm(v)]), method='sarabandi', threshold=v.eta)[0],
+                 "QuaternionArray(DCM=[R], method='sarabandi', threshold=eta)[0]"))
     return ts
 
 
@@ -99,6 +110,11 @@ def _entry(entry, method, kw):
     if entry == 'QuaternionArray(DCM=)':
         return lambda R: np.asarray(ahrs.QuaternionArray(DCM=np.array([R]), method=method, **kw))[0]
     raise KeyError(entry)
+
+
+def _opt(kw):
+    """option suffix used in tags"""
+    return f"{kw.get('version', '')}" + (f"[thr={kw['threshold']:g}]" if 'threshold' in kw else '')
 
 
 def _mat(c):
@@ -188,7 +204,7 @@ def correspondence(ctx):
     for m in ('shepperd', 'chiaverini', 'hughes'):
         f = _free(m, {})
         ctx.correspond(f'C02_{m}_q', qcases, (lambda c, f=f: f(cm.Rspec([c[k] for k in Q]))), tol_ulp=4096, abs_tol=1e-12)
-    scases = [{**c, 'eta': float(e)} for c, e in zip(qcases, np.resize([0.0, 0.5, -0.5, 2.5, 1e-3, -3.5], len(qcases)))]
+    scases = [{**c, 'eta': float(e)} for c, e in zip(qcases, np.resize(SARA_THRESHOLDS + (1e-3, -3.5), len(qcases)))]
     from ahrs.common import orientation as O
     ctx.correspond('C02_sarabandi_q', scases, lambda c: O.sarabandi(cm.Rspec([c[k] for k in Q]), eta=c['eta']), tol_ulp=4096, abs_tol=1e-12)
     # (c) dispatchers
@@ -197,6 +213,15 @@ def correspondence(ctx):
         for tag, entry in (('DCM', 'DCM.to_quaternion'), ('Q', 'Quaternion(dcm=)'), ('QA', 'QuaternionArray(DCM=)')):
             f = _entry(entry, m, {})
             ctx.correspond(f'C02_{tag}_{m}_m', sub, (lambda c, f=f: f(_mat(c))), tol_ulp=64)
+    # (c') the threshold option through the three routes
+    #     (rotations of the trio's domain only: beyond pi - 1e-6 a negative threshold takes sqrt of a rounding-negative
+    #      radicand, and the NaN gate of the Quaternion constructor is not part of the real-number model)
+    dom = [c for c, (_, q) in zip(mats, qs) if _in_trio_domain(q)] + mats[len(qs):]
+    dom = dom if not ctx.quick() else dom[::2]
+    tcases = [{**c, 'eta': float(e)} for c, e in zip(dom, np.resize(SARA_THRESHOLDS, len(dom)))]
+    for tag, entry in (('DCM', 'DCM.to_quaternion'), ('Q', 'Quaternion(dcm=)'), ('QA', 'QuaternionArray(DCM=)')):
+        ctx.correspond(f'C02_{tag}_sarabandi_thr_m', tcases,
+                       (lambda c, entry=entry: _entry(entry, 'sarabandi', {'threshold': c['eta']})(_mat(c))), tol_ulp=64)
     # (d) Bar-Itzhack: the matrix handed to LAPACK = the hand model's K (float instance, vm_compute); and the
     #     contract of the eigen-solver + selection, exercised on the real output
     kc = [(r, q) for r, q in qs][:ctx.n(30, 200)]
@@ -292,7 +317,7 @@ def o_invert(inp):
     method, kw, entry, region = inp['method'], dict(inp.get('kw', {})), inp['entry'], inp.get('region', 'generic')
     form = inp.get('form', 'float64')
     R = cm.Rspec(q)
-    where = f"{entry}:{method}{kw.get('version', '')}"
+    where = f"{entry}:{method}{_opt(kw)}"
     if form != 'float64':
         where += f'[{form}]'
     f = _entry(entry, method, kw)
@@ -317,7 +342,7 @@ def o_batch(inp):
     method, kw, entry = inp['method'], dict(inp.get('kw', {})), inp['entry']
     Rs = np.array([cm.Rspec(q) for q in qs])
     A = _as_form(Rs, inp.get('form', 'float64'))
-    where = f"{entry}:{method}{kw.get('version', '')}[N={len(qs)}]"
+    where = f"{entry}:{method}{_opt(kw)}[N={len(qs)}]"
     if entry == 'QuaternionArray(DCM=)':
         out = np.asarray(ahrs.QuaternionArray(DCM=A, method=method, **kw))
     elif entry == 'QuaternionArray.from_DCM':
@@ -344,18 +369,18 @@ def o_agree(inp):
     R = cm.Rspec(q)
     entry, region = inp['entry'], _cls(inp.get('region', 'generic'))
     ref = None
-    for method, kw in CHOICES:
+    for method, kw in CHOICES + OPT_CHOICES:
         if method in CLOSED and not _in_trio_domain(q):
             continue
         o = np.asarray(_entry(entry, method, kw)(R.copy()))
         if np.iscomplexobj(o) or o.shape != (4,) or cm.bad(o):
-            return {'tag': f"{entry}:{method}{kw.get('version', '')}/{region}-complex-or-shape", 'observed': repr(o)}
+            return {'tag': f"{entry}:{method}{_opt(kw)}/{region}-complex-or-shape", 'observed': repr(o)}
         o = o.astype(float)
         if ref is None:
             ref = (method, o)
             continue
         if min(cm.maxabs(o, ref[1]), cm.maxabs(o, -ref[1])) > INV_TOL:
-            return {'tag': f"{entry}:{method}{kw.get('version', '')}/{region}-disagrees-with-{ref[0]}", 'observed': o, 'expected': ref[1]}
+            return {'tag': f"{entry}:{method}{_opt(kw)}/{region}-disagrees-with-{ref[0]}", 'observed': o, 'expected': ref[1]}
     return None
 
 
@@ -366,7 +391,7 @@ def cm_call(f, inp):
     from vlib.core import call_outcome
     r = call_outcome(f, inp)
     if r[0] == 'raise':
-        where = f"{inp.get('entry', '?')}:{inp.get('method', 'all')}{dict(inp.get('kw', {})).get('version', '')}"
+        where = f"{inp.get('entry', '?')}:{inp.get('method', 'all')}{_opt(dict(inp.get('kw', {})))}"
         return {'tag': f"{where}/{_cls(inp.get('region', 'any'))}-raises-{r[1]}", 'observed': list(r[1:])}
     return r[1]
 
@@ -414,6 +439,14 @@ def search(ctx, scale):
                 inp = {'q': q.tolist(), 'method': method, 'kw': kw, 'entry': entry, 'region': region, 'twice': (i + j) % 4 == 0}
                 ctx.check('invert', inp, cm_call(o_invert, inp),
                           nontrivial_key=(entry, method, kw.get('version'), region, tuple(np.round(q, 6))) if abs(abs(q[0]) - 1) > 1e-15 else None)
+        # the methods' options through every route (keyword `threshold=` on all three dispatchers, `eta=` on the function)
+        if _in_trio_domain(q):
+            for j, (method, kw) in enumerate(OPT_CHOICES):
+                entries = (ENTRIES + ('free',)) if (not generic or scale > 1) else ((ENTRIES + ('free',))[(i + j) % 4],)
+                for entry in entries:
+                    inp = {'q': q.tolist(), 'method': method, 'kw': kw, 'entry': entry, 'region': region}
+                    ctx.check('invert', inp, cm_call(o_invert, inp),
+                              nontrivial_key=(entry, method, kw['threshold'], region, tuple(np.round(q, 6))) if abs(abs(q[0]) - 1) > 1e-15 else None)
         inp = {'q': q.tolist(), 'entry': ENTRIES[i % 3], 'region': region}
         ctx.check('agree', inp, cm_call(o_agree, inp), nontrivial_key=('agree', region, tuple(np.round(q, 6))))
     # 2. exactly representable rotations handed over as int arrays, lists, float32
@@ -421,7 +454,7 @@ def search(ctx, scale):
     for i, q in enumerate(perms):
         ang = _angle(q)
         region = 'perm-half-turn' if abs(ang - math.pi) < 1e-9 else ('perm-identity' if ang < 1e-9 else 'perm')
-        for j, (method, kw) in enumerate(CHOICES):
+        for j, (method, kw) in enumerate(CHOICES + OPT_CHOICES[1::2]):
             if method in CLOSED and not _in_trio_domain(q):
                 continue
             for form in ('int', 'float32'):
@@ -429,20 +462,20 @@ def search(ctx, scale):
                 #  an input-validation matter outside this property; float32 goes to the entry points that accept it)
                 entry = (ENTRIES + ('free',))[(i + j + len(form)) % 4] if form == 'int' else ('free', 'QuaternionArray(DCM=)')[(i + j) % 2]
                 inp = {'q': q.tolist(), 'method': method, 'kw': kw, 'entry': entry, 'region': region, 'form': form}
-                ctx.check('invert', inp, cm_call(o_invert, inp), nontrivial_key=(entry, method, kw.get('version'), form, i))
+                ctx.check('invert', inp, cm_call(o_invert, inp), nontrivial_key=(entry, method, _opt(kw), form, i))
     # 3. batches of N rows
     pool = [q for r, q in qs]
     dom = [q for q in pool if _in_trio_domain(q)]
     for N in (1, 2, 3, 4, 5, 7):
         for k in range(scale):
-            for method, kw in CHOICES:
+            for method, kw in CHOICES + OPT_CHOICES[(N + k) % 2::2]:
                 src = dom if method in CLOSED else pool
                 idx = ctx.rng.choice(len(src), size=N, replace=False)
                 rows = [src[t] for t in idx]
                 ents = ['QuaternionArray(DCM=)', 'QuaternionArray.from_DCM'] + (['batch-function'] if method in ('chiaverini', 'hughes') else [])
                 for entry in ents:
                     inp = {'qs': [r.tolist() for r in rows], 'method': method, 'kw': kw, 'entry': entry, 'region': f'N{N}'}
-                    ctx.check('batch', inp, cm_call(o_batch, inp), nontrivial_key=(entry, method, kw.get('version'), N, k))
+                    ctx.check('batch', inp, cm_call(o_batch, inp), nontrivial_key=(entry, method, _opt(kw), N, k))
         if N <= 4:
             rows = [perms[(5 * N + t) % len(perms)] for t in range(N)]
             rows = [q for q in rows]
